@@ -766,7 +766,8 @@ func c09Prefilled(c *rt.Ctx) {
 			}}
 		},
 	}
-	vals := []string{"null", "5", `{"A":2,"S":"t"}`, `"str"`, `[3,4,5]`, "true"}
+	// ({"S":"t"} fills a struct pointee only partly: what the caller had in A stays)
+	vals := []string{"null", "5", `{"A":2,"S":"t"}`, `{"S":"t"}`, `"str"`, `[3,4,5]`, `[8]`, "true"}
 	wss := []string{"", " ", "\n\t "}
 	render := func(m made, err error) string {
 		if err != nil {
